@@ -496,9 +496,46 @@ def r9(ctx, facts):
                    c.span)
 
 
+def r10(ctx, facts):
+    """completeness of the fallback plan: the last-resort groups name every enabled node whether believed up or down. The
+    local one is unconditional (with no preferred datacenter `local` is the whole cluster), the cluster-wide one exists
+    where failover is possible. Without the local group an enabled node that is not connected is missing from every plan
+    of a policy that cannot fail over (seed C05-j)."""
+    r = ctx.rule("R10", "fallback() ends with every enabled node of the local set, live or not, on every path (plan completeness)", floor=1)
+    cg = CallGraph(facts)
+    cache = {}
+    fb = method_bodies(facts, "fallback")[0]
+    uq = fb.calls_to("Itertools::unique_by")
+    if len(uq) != 1:
+        raise AnchorLost("fallback(): expected one unique_by, found %d" % len(uq))
+    local = [c for bb, c in fb.calls() if bb in fb.live_blocks and (c.name or c.decl or "").endswith("DefaultPolicy::preferred_node_set")]
+    if len(local) != 1:
+        raise AnchorLost("fallback(): expected one preferred_node_set call, found %d" % len(local))
+    local_l = local[0].dest[0]
+    chains = fb.calls_to("core::iter::traits::iterator::Iterator::chain")
+    good = []
+    for c in chains:
+        for op in c.args[:2]:
+            locs, _, _ = backward_slice(fb, op)
+            if local_l not in locs:
+                continue
+            preds = []
+            for l in locs:
+                for d in fb.defs.get(l, []):
+                    if d[0] == "stmt" and d[3][0] == "agg" and d[3][1][0] == "closure":
+                        k = _pred_class(facts, cg, d[3][1][1], cache)
+                        if k:
+                            preds.append((k, d[1]))
+            if preds and all(k == "down" for k, _ in preds) and all(fb.dominates(bb, uq[0].bb) for _, bb in preds):
+                good.append(c)
+    r.instance("every-enabled-local-node-is-named", bool(good),
+               "no group of fallback() selects from the local node set by `is_enabled` alone, unconditionally: an enabled node the driver "
+               "is not connected to is left out of the plan unless datacenter failover happens to be possible", uq[0].span)
+
+
 def check(ctx):
     facts = inline_view(ctx.facts("default"))
-    for fn in (r1, r2, r3, r4, r5, r6, r7, r8, r9):
+    for fn in (r1, r2, r3, r4, r5, r6, r7, r8, r9, r10):
         try:
             fn(ctx, facts)
         except AnchorLost as ex:
